@@ -13,7 +13,7 @@ from bubus.helpers import retry  # noqa: E402
 LEVEL = 'model_checking'
 RULE = ('retries in {0,1,2,3} x wait in {0, 0.5} x backoff_factor in {1, 2, 0.5, 0 (decaying / vanishing waits)} x timeout 1 s x retry_on in {None, (), (Listed,), (Listed, TimeoutError)}; at every attempt the wrapped function asks '
         'the explorer for its outcome in {ok, slow ok (0.7 x timeout), Listed error, Unlisted error, overrun (sleeps past the timeout), overrun answered by an Unlisted error raised at the cut-off, caller cancelled during the attempt, Listed error then caller cancelled during the '
-        'back-off}: these are free choices, so EVERY outcome sequence is enumerated. Compared with an independent reference of the documented semantics: number and virtual start times of calls, '
+        'back-off}: these are free choices, so EVERY outcome sequence is enumerated. Also with a one-slot lax semaphore whose slot is held by somebody else (the call goes on without it after the acquisition time-out). Compared with an independent reference of the documented semantics: number and virtual start times of calls, '
         'return value / identity of the raised exception, cancellation never retried or swallowed. non-trivial = at least two attempts or a cancellation; distinct = distinct outcome sequences per configuration')
 ASSUMPTIONS = ['an overrun when retry_on is given without TimeoutError may either propagate at once (unlisted exception) or be retried (failed attempt): the statement allows both readings',
                'virtual time: the function body itself takes no time except where it sleeps']
@@ -52,7 +52,20 @@ class RetryWorld:
         w = self
         loop = self.loop
 
-        @retry(wait=p['wait'], retries=p['retries'], timeout=p['timeout'], backoff_factor=p['bf'], retry_on=RETRY_ON[p['retry_on']])
+        semkw = {}
+        if p.get('sem'):
+            # the function also has a one-slot lax semaphore whose slot somebody else holds: this call queues for sem_timeout, then goes on without the
+            # slot (documented) - the retry semantics after that are the same as without a semaphore
+            semkw = dict(semaphore_limit=1, semaphore_name='c19sem', semaphore_scope='global', semaphore_lax=True, semaphore_timeout=p['sem_timeout'])
+            gate = loop.create_future()
+
+            @retry(wait=0, retries=0, timeout=1000, **semkw)
+            async def holder():
+                await gate
+            self.holder = asyncio.ensure_future(holder())
+            await loop.hsleep(0.01)
+
+        @retry(wait=p['wait'], retries=p['retries'], timeout=p['timeout'], backoff_factor=p['bf'], retry_on=RETRY_ON[p['retry_on']], **semkw)
         async def fn():
             if w.second is not None:
                 # second call of the SAME decorated function (state kept by the decorator across calls would show here): fixed outcomes
@@ -112,7 +125,7 @@ class RetryWorld:
                 raise ex
 
         self.keep = []
-        self.t0 = loop.now()
+        self.t0 = loop.now() + (p['sem_timeout'] if p.get('sem') else 0.0)
         self.caller = asyncio.ensure_future(fn())
         try:
             r = await asyncio.shield(self._wait(self.caller))
@@ -129,6 +142,9 @@ class RetryWorld:
             self.second_result = ('raised', type(e).__name__)
         self.rec('second', tuple(round(t, 4) for t in self.second), self.second_result)
         self.rec('final', n_first)
+        if p.get('sem'):
+            gate.set_result(None)
+            await self.holder
 
     async def _wait(self, t):
         try:
@@ -160,6 +176,9 @@ def families(tier):
             continue  # a factor below 1 only shows from the second wait on, and only when there is a wait
         out.append(dict(prop='C19', family='c19.retry', id=f'c19/r{r}-w{w}-b{bf}-{ro}', cfg=dict(bound=0, cap=200000, free=('outcome',), busy=False, horizon=60.0),
                         p=dict(retries=r, wait=w, bf=bf, timeout=1.0, retry_on=ro)))
+    for r, w, ro in itertools.product((1, 2), (0.5,), ('none', 'listed', 'listed+timeout')):
+        out.append(dict(prop='C19', family='c19.retry_after_lax_semaphore_timeout', id=f'c19/sem-r{r}-w{w}-{ro}', cfg=dict(bound=0, cap=200000, free=('outcome',), busy=False, horizon=60.0),
+                        p=dict(retries=r, wait=w, bf=2, timeout=1.0, retry_on=ro, sem=True, sem_timeout=0.3)))
     return out
 
 
